@@ -479,6 +479,23 @@ func (g *gen) rpc(id int) *RPC {
 			c = append(c, Op{K: "mutate", Ref: "r0"})
 		}
 	}
+	for i := range c {
+		if c[i].K == "recvall" && g.p(k.pJunkDst) {
+			c[i].Ref = "junk"
+		}
+	}
+	for i := range h {
+		switch h[i].K {
+		case "recv", "decode":
+			if g.p(k.pJunkDst) {
+				h[i].N = 1
+			}
+		case "recvall":
+			if g.p(k.pJunkDst) {
+				h[i].Ref = "junk"
+			}
+		}
+	}
 	r.Client, r.Handler = c, h
 	if g.p(k.pDeadline) {
 		r.DeadlineN = g.dur()
@@ -542,11 +559,13 @@ func (g *gen) program(profile string, seed int64) *Program {
 	for n < k.maxRPC && g.p(0.45) {
 		n++
 	}
-	big := 0
 	for i := 0; i < n; i++ {
 		r := g.rpc(i)
+		if i > 0 && g.p(0.35) {
+			// a later call on the same channel: starts when an earlier one is over
+			r.After = 1 + g.pick(i)
+		}
 		p.RPCs = append(p.RPCs, r)
-		_ = big
 	}
 	if p.Cfg.Cloner >= 2 {
 		// the codec / clone-func / copy-func adapters create destinations by
